@@ -12,6 +12,7 @@ CONSTANTS
   MaxRuns = 1
   AllowDecor = FALSE
   OnExcChoices = {TRUE}
+  PreForceChoices = {FALSE}
   StepOps = {"addCleanup"}
   AllowMulti = FALSE
   Variant = "asRequired"
@@ -20,6 +21,7 @@ CONSTANTS
   CleanOf <- MCCleanOf
   FixtureSetUpFails <- MCFixtureSetUpFails
   FixtureCleanKind <- MCFixtureCleanKind
+  FixtureGatherRaises <- MCFixtureGatherRaises
   FixtureDetails <- MCFixtureDetails
   MismatchDetails <- MCMismatchDetails
 INVARIANT Bracketed
